@@ -27,6 +27,19 @@ type advisoryErr struct{ n int }
 func (a *advisoryErr) Error() string { return fmt.Sprintf("advisory-%d", a.n) }
 func (a *advisoryErr) Ok() bool      { return true }
 
+// userMulti / userUnwinder are multi-errors written outside the library that
+// hand out their own stored slice, nil entries included (a caller's
+// aggregate type; the library may read that slice, it is not its to rewrite).
+type userMulti struct{ errs []error }
+
+func (u *userMulti) Error() string   { return fmt.Sprintf("user-multi%v", u.errs) }
+func (u *userMulti) Unwrap() []error { return u.errs }
+
+type userUnwinder struct{ errs []error }
+
+func (u *userUnwinder) Error() string   { return fmt.Sprintf("user-unwinder%v", u.errs) }
+func (u *userUnwinder) Unwind() []error { return u.errs }
+
 // etree is a generated error expression together with what was supplied.
 type etree struct {
 	err    error   // the value built by the library
@@ -40,12 +53,14 @@ type etree struct {
 	// nil input that the combinators must ignore
 	typedNil bool
 	advisory bool // the value is an *advisoryErr itself
-	extras int  // annotation / marker errors added by Wrap, Wrapf, ParsePanic
+	extras   int  // annotation / marker errors added by Wrap, Wrapf, ParsePanic
 }
 
 type egen struct {
-	next    int
-	derived []error // non-nil layers peeled off aggregates
+	next      int
+	derived   []error // non-nil layers peeled off aggregates
+	multis    []error // caller-owned multi-errors handed to the library
+	multiSnap [][]error
 }
 
 func (g *egen) leaf() etree {
@@ -221,6 +236,27 @@ func (g *egen) tree(depth int) etree {
 	case 4: // errors.Join (std multi-error) pushed through ers.Join
 		a, b := g.tree(depth-1), g.tree(depth-1)
 		out := merge("Join(errors.Join("+a.desc+","+b.desc+"))", a, b)
+		if shape := simrt.Choose(3); shape > 0 && !(isNilErr(a.err) && isNilErr(b.err)) && !a.typedNil && !b.typedNil {
+			// the same through a multi-error type of the caller's, whose slice
+			// has nil entries in front of / between the others
+			var multi error
+			if shape == 1 {
+				multi = &userMulti{errs: []error{a.err, nil, b.err}}
+				out.desc = "Join(userMulti(" + a.desc + ",nil," + b.desc + "))"
+			} else {
+				multi = &userUnwinder{errs: []error{nil, a.err, b.err}}
+				out.desc = "Join(userUnwinder(nil," + a.desc + "," + b.desc + "))"
+			}
+			g.multis = append(g.multis, multi)
+			switch u := multi.(type) {
+			case *userMulti:
+				g.multiSnap = append(g.multiSnap, append([]error{}, u.errs...))
+			case *userUnwinder:
+				g.multiSnap = append(g.multiSnap, append([]error{}, u.errs...))
+			}
+			out.err = ers.Join(multi)
+			return out
+		}
 		out.err = ers.Join(errors.Join(a.err, b.err))
 		return out
 	case 5: // Stack in Stack
@@ -426,6 +462,32 @@ func c12Trees(w *W) {
 		}
 		if got := ers.RemoveOk([]error{nil, d}); len(got) != 1 || got[0] != d {
 			w.Violate("removeok-dropped", "removeok-dropped", "ers.RemoveOk([nil, e]) = %v for the non-nil error %v", got, d)
+		}
+	}
+	// a caller's multi-error is read, never rewritten: looked at again (alone,
+	// through a single wrap, joined once more) it still lists what it listed
+	for i, m := range g.multis {
+		w.Probe("caller-owned-multi-error-operand")
+		first := ers.Unwind(m)
+		_ = ers.Unwind(fmt.Errorf("outer: %w", m))
+		_ = ers.Unwind(ers.Join(m, ers.Error("one-more")))
+		second := ers.Unwind(m)
+		var now []error
+		switch u := m.(type) {
+		case *userMulti:
+			now = u.errs
+		case *userUnwinder:
+			now = u.errs
+		}
+		same := len(now) == len(g.multiSnap[i]) && len(first) == len(second)
+		for k := 0; same && k < len(now); k++ {
+			same = now[k] == g.multiSnap[i][k]
+		}
+		for k := 0; same && k < len(first); k++ {
+			same = first[k] == second[k]
+		}
+		if !same {
+			w.Violate("operand-rewritten", "operand-rewritten", "a caller-owned multi-error that held %v holds %v after the library looked at it (Unwind before: %v, after: %v)", g.multiSnap[i], now, first, second)
 		}
 	}
 }
